@@ -319,26 +319,27 @@ struct XUtils : Engine {
         note_outcome((uint64_t)(expect != nullptr) | (uint64_t)(got != nullptr) << 1 | (uint64_t)toks.size() << 2);
     }
     static std::string wt(const cJSON* n) { Walk w = walk(n, W_NO_OWNED); return w.ok ? w.text.substr(0, 80) : "?"; }
-    void construct_rec(size_t d, const RV& v, const cJSON* n, const std::string& ptr, cJSON* root = nullptr) {
+    void construct_rec(size_t d, const RV& v, const cJSON* n, const std::string& ptr, cJSON* root = nullptr, bool exact = true) {
         if (!root) root = Dreal[d];
         char* s = LIB(cJSONUtils_FindPointerFromObjectTo(root, n)); ctr().calls++; ctr().compared++; ctr().extra[6]++;
         if (!s) { V("pointer:construct-null", "FindPointerFromObjectTo returned NULL for a node inside the tree (expected \"" + printable(ptr) + "\") in " + rv_text(D[d]).substr(0, 200)); return; }
-        if (ptr != s) V("pointer:construct-wrong", "FindPointerFromObjectTo gave \"" + printable(s) + "\", expected \"" + printable(ptr) + "\" in " + rv_text(D[d]).substr(0, 200));
+        if (exact && ptr != s) V("pointer:construct-wrong", "FindPointerFromObjectTo gave \"" + printable(s) + "\", expected \"" + printable(ptr) + "\" in " + rv_text(D[d]).substr(0, 200));
         cJSON* back = LIB(cJSONUtils_GetPointerCaseSensitive(root, s)); if (back != n) V("pointer:construct-not-inverse", "constructed pointer \"" + printable(s) + "\" does not resolve back to its node in " + rv_text(D[d]).substr(0, 200));
         LIBV(cJSON_free(s));
         const cJSON* ch = n->child;
-        if (v.k == RV::Obj) for (auto& kv : v.obj) { construct_rec(d, kv.second, ch, ptr + "/" + ptr_encode_token(kv.first), root); ch = ch->next; }
-        if (v.k == RV::Arr) for (size_t i = 0; i < v.arr.size(); i++) { construct_rec(d, v.arr[i], ch, ptr + "/" + std::to_string(i), root); ch = ch->next; }
+        if (v.k == RV::Obj) for (auto& kv : v.obj) { construct_rec(d, kv.second, ch, ptr + "/" + ptr_encode_token(kv.first), root, exact); ch = ch->next; }
+        if (v.k == RV::Arr) for (size_t i = 0; i < v.arr.size(); i++) { construct_rec(d, v.arr[i], ch, ptr + "/" + std::to_string(i), root, exact); ch = ch->next; }
     }
     void do_construct(const Case& c) {
         size_t d = (size_t)c.iv[1]; if (d >= D.size()) return; ctr().nontrivial++;
         construct_rec(d, D[d], Dreal[d], "");
         if (d < DrealCS.size()) construct_rec(d, D[d], DrealCS[d], "", DrealCS[d]);
         if (d < DrealNamed.size()) construct_rec(d, D[d], DrealNamed[d], "", DrealNamed[d]);
-        // the same tree under a holder in which references to the tree and to its first child come first: the pointer must lead to the node itself, not to a reference that shares its contents
+        // the same tree under a holder in which references to the tree and to its first child come first: whichever route the pointer takes (the children are
+        // reachable through the references as well), it has to resolve back to the node itself, not to a reference node that merely shares its contents
         { cJSON* tree = build_tree(D[d]); cJSON* holder = LIB(cJSON_CreateObject()); LIBV(cJSON_AddItemReferenceToObject(holder, "alias", tree)); if (tree->child) LIBV(cJSON_AddItemReferenceToObject(holder, "alias-of-child", tree->child));
           cJSON* harr = LIB(cJSON_CreateArray()); LIBV(cJSON_AddItemReferenceToArray(harr, tree)); LIBV(cJSON_AddItemToObject(holder, "list", harr)); LIBV(cJSON_AddItemToObject(holder, "real", tree));
-          construct_rec(d, D[d], tree, "/real", holder); LIBV(cJSON_Delete(holder)); }
+          construct_rec(d, D[d], tree, "/real", holder, false); LIBV(cJSON_Delete(holder)); }
         size_t other = (d + 1) % D.size(); char* s = LIB(cJSONUtils_FindPointerFromObjectTo(Dreal[d], Dreal[other]));
         if (s) { V("pointer:construct-foreign", "FindPointerFromObjectTo returned \"" + printable(s) + "\" for a node outside the tree"); LIBV(cJSON_free(s)); }
         if (LIB(cJSONUtils_FindPointerFromObjectTo(nullptr, Dreal[d])) || LIB(cJSONUtils_FindPointerFromObjectTo(Dreal[d], nullptr))) V("pointer:construct-null-arg", "NULL argument accepted");
